@@ -120,7 +120,11 @@ func cmdCheck(args []string) int {
 		fmt.Fprintln(os.Stderr, err)
 		return 2
 	}
-	defer os.RemoveAll(tmp)
+	if os.Getenv("GOVC_KEEP") == "" {
+		defer os.RemoveAll(tmp)
+	} else {
+		fmt.Fprintln(os.Stderr, "keeping", tmp)
+	}
 
 	// generate (parallel, one engine per harness), prepare, then discharge
 	results := make([]*engine.HarnessResult, len(hs))
@@ -247,9 +251,6 @@ func cmdCheck(args []string) int {
 				}
 				evObls = append(evObls, ev)
 				continue
-			}
-			if o.Status == "trivially-true" {
-				continue // not counted: nothing was asked of a solver
 			}
 			if f := matchFinding(o.Name); f != nil {
 				// excused obligation: reported separately, not counted as discharged
